@@ -147,36 +147,33 @@ theorem WF.contDel_plain_of {g : Graph} (h : WF g) {c : Cont}
       cLinks g' c.node = (contEntries g c).filter (fun l => l != e) := by
   have hpl : isPlainLike c.info.flavour = true := by rw [hfl]; rfl
   have hmem := contGet_mem hpl hget
-  obtain ⟨hkind, ⟨i, hid⟩, _⟩ := hok e hmem
+  obtain ⟨hkind, _, _⟩ := hok e hmem
   have hk' : (kindOf g e.2 != c.info.item) = false := by simpa using hkind
-  refine ⟨g.deleteAll [i], ?_, ?_⟩
+  refine ⟨g.deleteObjs [e.2], ?_, ?_⟩
   · unfold Store.contDel
     cases key with
     | ent k => simp [contGet] at hget
     | pos j =>
       simp only [hget, Except.map]
-      simp only [hk', Bool.false_eq_true, ↓reduceIte, hfl, hid]
+      simp only [hk', Bool.false_eq_true, ↓reduceIte, hfl]
     | str x =>
       simp only [hget, Except.map]
-      simp only [hk', Bool.false_eq_true, ↓reduceIte, hfl, hid]
+      simp only [hk', Bool.false_eq_true, ↓reduceIte, hfl]
   · unfold contEntries cLinks
     cases hn : c.node with
     | none => rfl
     | some cg =>
       simp only
-      rw [links_deleteAll]
+      rw [links_deleteObjs]
       apply List.filter_congr
       intro l hl
       have hl' : l ∈ contEntries g c := by unfold contEntries cLinks; rw [hn]; exact hl
-      obtain ⟨_, ⟨i', hid'⟩, _⟩ := hok l hl'
-      unfold keepLink
-      rw [hid']
-      by_cases hii : i' = i
-      · subst hii
-        have := entry_eq_of_target hpl (hok l hl') (hok e hmem) (h.ids_distinct _ _ _ hid' hid)
+      unfold keepObj
+      by_cases hii : l.2 = e.2
+      · have := entry_eq_of_target hpl (hok l hl') (hok e hmem) hii
         simp [this]
       · have : l ≠ e := by
-          intro e'; subst e'; rw [hid] at hid'; exact hii (Option.some.inj hid').symm
+          intro e'; subst e'; exact hii rfl
         simp [hii, this]
 
 theorem WF.contDel_plain {g : Graph} (h : WF g) {p : Path} {cn : String} {c : Cont}
@@ -334,10 +331,9 @@ theorem contDel_getAttr {g g' : Graph} {c : Cont} {key : Key} (hres : contDel g 
     · cases hres
     · split at hres
       all_goals first
-        | (cases hres; exact getAttr_deleteAll ..)
+        | (cases hres; exact getAttr_deleteObjs ..)
         | (split at hres
            all_goals first
-             | (cases hres; first | exact getAttr_deleteAll .. | rfl)
              | exact h5Delete_getAttr hres k a
              | cases hres)
 
